@@ -34,6 +34,12 @@ def run(chk) -> None:
     chk.trusted = ["CPython ast", "functools.cached_property writes only its own slot", "external calls (pulp, graphviz, re) do not mutate BpSeq state"]
     chk.assumptions = ["callers outside the library do not mutate returned containers"]
     chk.robust |= {"receiver-write", "cache-introspection", "pk-class", "isolated-select", "isolated-unpair", "isolated-copy", "foreign-write"}
+    check_effects(chk)
+    check_removals(chk)
+
+
+def check_effects(chk) -> None:
+    repo = chk.repo
     eng = Effects(repo)
     n_methods = 0
     for fi in sorted(repo.module(MOD).funcs.values(), key=lambda f: f.node.lineno):
@@ -73,6 +79,10 @@ def run(chk) -> None:
                 chk.violation("cache-introspection", fi.site(n), f"`{hit}` is read: functools.cached_property keeps its answers there, so the result depends on which properties were asked for earlier - an interleaving of calls no longer answers like a fresh copy", key=f"{MOD}:{fi.qualname}:cache-introspection")
     chk.ok("cache-introspection", f"{n_cls} methods", "no method inspects the instance dictionary (the cached_property store)")
 
+
+
+def check_removals(chk) -> None:
+    repo = chk.repo
     # ---- without_pseudoknots ---------------------------------------------------------------
     wp = repo.func(MOD, "DotBracket.without_pseudoknots")
     chk.note_function(wp)
